@@ -5,6 +5,7 @@
 //  file LICENSE_1_0.txt or copy at http://www.boost.org/LICENSE_1_0.txt)
 
 #include <pika/threading_base/detail/global_activity_count.hpp>
+#include <pika/config.hpp>
 
 #include <atomic>
 #include <cstddef>
@@ -14,12 +15,16 @@ namespace pika::threads::detail {
 
     void increment_global_activity_count()
     {
+        PIKA_VERIF_PRE("gac.inc", nullptr);
         global_activity_count.fetch_add(1, std::memory_order_acquire);
+        PIKA_VERIF_POST("gac.inc", nullptr, global_activity_count.load(), 0);
     }
 
     void decrement_global_activity_count()
     {
+        PIKA_VERIF_PRE("gac.dec", nullptr);
         global_activity_count.fetch_sub(1, std::memory_order_release);
+        PIKA_VERIF_POST("gac.dec", nullptr, global_activity_count.load(), 0);
     }
 
     std::size_t get_global_activity_count()
